@@ -5,6 +5,8 @@ from props import waterlib
 from props.waterlib import fl, fls, b
 
 PROP_FILES = ["Prop_C09", "Prop_C09b"]
+# Coq-Interval (lg_bound in CropNProofs) is taken as compiled by coqchk: re-checking its stack exceeds 50 minutes
+COQCHK_ADMIT = ["Interval.Tactic"]
 RULE = ("PhytoOut transitions (state before/after the call in sub-step 1) of traced in-process runs of generated crop "
         "rotations over every shipped annual main-crop parameter set (SM, SOY + 8 varieties, SW, OA, WW, WG, WR, TR, WRA, K, "
         "ZR + chrnew, LUP), classic and YAML parameter format, CO2 methods 1-3, N supply 0..400 kg/ha, shipped soils incl. "
